@@ -84,7 +84,7 @@ RESULT
   status_json                 (status_task_ms only, else None) {"failed": failedAuthenticateSummary, "ok":
                               proxyConnectionSummary (both sorted like `summary`), "timestamp", "has_failed_field",
                               "has_ok_field"} parsed from status.json after it was completely rewritten twice
-                              following the last request (so it was computed after it); {"error": ...} on a 5 s timeout
+                              following the last request (so it was computed after it); {"error": ...} on a 20 s timeout
   snapshots                   results of "snapshot" ops (label, audit_map, summary, status_json -- same two-rewrite wait)
   drained                     True when every upstream connection was accepted and closed before collection
   panics                      panic messages seen in the process during the scenario
